@@ -1,5 +1,6 @@
 mod blocks;
 mod bufsim;
+mod c13;
 mod engine;
 mod graphs;
 mod graphsim;
@@ -28,6 +29,7 @@ fn checks() -> Vec<Box<dyn Check>> {
         Box::new(rigcheck::RigCheck { prop: "C10" }),
         Box::new(rigcheck::RigCheck { prop: "C11" }),
         Box::new(rigcheck::RigCheck { prop: "C12" }),
+        Box::new(c13::HdlcCheck),
     ]
 }
 
